@@ -491,7 +491,8 @@ def float_close(x, txt):
         return True
     tup = d.normalize().as_tuple()
     tol = 1e-14 * max(abs(x), abs(y))
-    if len(tup.digits) >= 12:
+    # shortened: 12 or more digits kept, or the text fills the 18 characters (sign and a three-digit exponent leave room for 11 digits only)
+    if len(tup.digits) >= 12 or len(txt.strip()) >= 17:
         tol = max(tol, 100.0 * float(Decimal(1).scaleb(tup.exponent)))
     return abs(x - y) <= tol
 
